@@ -155,4 +155,4 @@ def simplify(case):
 
 
 def run_shard(ctx):
-    ctx.drive("loop", cases(ctx.tier), check_case, ctx.budget(2400, 40000))
+    ctx.drive("loop", cases(ctx.tier), check_case, ctx.budget(6000, 60000))
